@@ -64,6 +64,7 @@ struct Run
   int templog = 0;
   int lazycomp = 0;   // the wrapped component does not look up the runtime itself (a hand-written component need not)
   int idquery = 0;    // ask for the client identifiers after this many registrations (0 = only at the end)
+  int temploc = 0;    // 'create' only: the prototype locator handed to the constructor is destroyed right after construction
   int reentry = 0;    // the user's log sink registers one more client ('monitor') when it receives its k-th message
   int sibling = 0;    // 1/2: a second, independent instance of the same shell type lives in the process (set up before / after the main one)
   std::vector<TaskSpec> tasks;
@@ -725,23 +726,31 @@ static void execute_run(int out_fd)
     if (R.sibling == 1) sibling_setup();
 
     // ---- construct the shell
+    std::unique_ptr<dzn::locator> temp_loc;
+    if (R.temploc) temp_loc.reset(new dzn::locator(uloc.clone()));
+    const dzn::locator& passed = temp_loc ? *temp_loc : uloc;
     sim_ctr_add(CTR_PHASE, 1);
     try
     {
-      g_shell = g_model.shell.construct(uloc, "inst_" + R.id);
+      g_shell = g_model.shell.construct(passed, "inst_" + R.id);
     }
     catch (const std::exception& e)
     {
       sim_ctr_add(CTR_PHASE, 1);
       rec("shell_ctor result=throw what=" + sanitize(e.what()));
-      rec("proto_after entries=" + contents_digest(uloc));
+      rec("proto_after entries=" + contents_digest(passed));
       if (upump) upump->sim_stop();
       sim_join_threads();
       sim_finish(SIMX_OK);
     }
     sim_ctr_add(CTR_PHASE, 1);
     rec("shell_ctor result=ok");
-    rec("proto_after entries=" + contents_digest(uloc));
+    rec("proto_after entries=" + contents_digest(passed));
+    if (temp_loc)
+    {  // a 'create' shell works on its own clone: the user's prototype need not outlive the constructor call
+      temp_loc.reset();
+      rec("prototype_locator_destroyed");
+    }
     {
       dzn::locator* sl = g_model.shell.locator(g_shell);
       rec(std::string("locator_accessor present=") + (sl ? "1" : "0") + " entries=" + (sl ? contents_digest(*sl) : std::string("-")));
@@ -1008,6 +1017,7 @@ static bool parse_run(const std::vector<std::string>& lines, Run& R)
     else if (kw == "IDQUERY") is >> R.idquery;
     else if (kw == "SIBLING") is >> R.sibling;
     else if (kw == "REENTRY") is >> R.reentry;
+    else if (kw == "TEMPLOC") is >> R.temploc;
     else if (kw == "TASK")
     {
       TaskSpec t;
